@@ -22,6 +22,7 @@ FOLLOW = {
     "partial": b"GET /next HTTP/1.1\r\nX: ",
     "garbage": b"\x00\xff garbage \r\n\r\n",
     "two": b"GET /next HTTP/1.1\r\n\r\nGET /next2 HTTP/1.1\r\n\r\n",
+    "split": b"GET /next HTTP/1.1\r\nX-Long: 1\r\n\r\n",  # first half arrives with the closing message, the rest later
 }
 
 
@@ -37,7 +38,7 @@ def jobs(tier):
     for c in CLOSERS:
         for f in FOLLOW:
             for la in (0, 1, 2, 5):
-                if tier == "quick" and (la == 5 and f != "two" or la == 2 and f == "garbage"):
+                if tier == "quick" and (la == 5 and f not in ("two", "split") or la == 2 and f == "garbage"):
                     continue
                 js.append(dict(name="%s:%s:la%d" % (c, f, la), closer=c, follow=f, lookahead=la, workers=1, P=1))
     if tier == "thorough":
@@ -51,7 +52,7 @@ def make_inputs(job):
     eng = E()
     lead = bool(eng.choose(2, "lead"))
     later = bool(eng.choose(2, "later"))
-    acc0 = (None, 0)[eng.choose(2, "acc0")]
+    acc0 = (None, 0, "partial-then-block")[eng.choose(3, "acc0")]
     return dict(closer=job["closer"], follow=job["follow"], lookahead=job["lookahead"], workers=job["workers"], P=job["P"], lead=lead, later=later, acc0=acc0)
 
 
@@ -73,7 +74,10 @@ def scenario(ns, inp):
     try:
         head = (b"GET /lead HTTP/1.1\r\n\r\n" if inp["lead"] else b"") + CLOSERS[inp["closer"]]
         tail = FOLLOW[inp["follow"]]
-        pieces = [head, tail] if inp["later"] else [head + tail]
+        if inp["follow"] == "split":
+            pieces = [head + tail[:12], tail[12:]] if inp["later"] else [head + tail[:12] + tail[12:]]
+        else:
+            pieces = [head, tail] if inp["later"] else [head + tail]
         conn = sysm.connect(pieces)
         if inp["acc0"] is not None:
             orig = conn.send
@@ -82,7 +86,7 @@ def scenario(ns, inp):
             def send(d):
                 if st[0]:
                     st[0] = False
-                    conn.accept = [0]
+                    conn.accept = [0] if inp["acc0"] == 0 else [10, 0, 0]
                 return orig(d)
             conn.send = send
         sysm.run()
